@@ -65,3 +65,14 @@ pub fn seed_bytes(seed: u64, worker: u64, purpose: u64) -> [u8; 32] {
     }
     out
 }
+
+/// path to re-execute this very binary: /proc/self/exe keeps working even if the file on disk was
+/// replaced by a concurrent rebuild
+pub fn self_exe() -> std::path::PathBuf {
+    let p = std::path::PathBuf::from("/proc/self/exe");
+    if p.exists() {
+        p
+    } else {
+        std::env::current_exe().unwrap_or_else(|_| std::path::PathBuf::from("pfverif"))
+    }
+}
